@@ -224,6 +224,22 @@ func C15(r *vf.Run) {
 		cells := map[string]int64{}
 		for k := 0; k < 160 && !r.TooMany(); k++ {
 			calls, base, _ := genHistory(g, histOpts{maxCalls: 120, listing: true, dataBlocks: true, withRefs: g.Intn(2) == 0, withDup: false})
+			if k%40 == 7 {
+				// a program longer than 65,535 bytes: one big table early on, code and data after it
+				calls, base, _ = genHistory(g, histOpts{maxCalls: 40, listing: true, dataBlocks: true})
+				at := 0
+				for at < len(calls) && (calls[at].Op == "setbase" || calls[at].Op == "assumesep" || calls[at].Op == "comment") {
+					at++
+				}
+				for i := range calls {
+					if calls[i].Op == "setbase" {
+						calls[i].Arg &= 0x7FFFFF // keep the whole program below the top of the address space
+					}
+				}
+				big := hcall{Op: "data", Data: g.Bytes([]int{65519, 65520, 65535, 65536, 65537, 70000}[g.Intn(6)] + g.Intn(3))}
+				calls = append(calls[:at:at], append([]hcall{big}, calls[at:]...)...)
+				cells["program-longer-than-64k"]++
+			}
 			// size it with the shadow first
 			sz := newShadow(true)
 			for _, c := range calls {
